@@ -370,6 +370,9 @@ fn exec_toks(t: &[&str]) -> Option<String> {
         }
         ("opt", op) => crate::opt::exec_opt(op, &t[2..]),
         ("pair", op) => crate::state::exec_pair(op, &t[2..]),
+        ("json", op) => crate::io::exec_io("json", op, &t[2..]),
+        ("svg", op) => crate::io::exec_io("svg", op, &t[2..]),
+        ("cli", "run") => crate::io::exec_cli(&t[2..]),
         ("state", op) => crate::state::exec_state(op, &t[2..]),
         ("tables", "group") => {
             let raw = t.get(2).copied().unwrap_or("");
